@@ -92,6 +92,9 @@ func c05(r *Report) propMeta {
 	r.Rule("C05.R9", "E20 event agreement: what the cylinder DE / signing workers read is emitted")
 	r.EventAgreement("events", 2, "cylinder/workers/de", "cylinder/workers/signing")
 
+	r.Rule("C05.lint", "E8 module lint: no nondeterminism / process-local state in x/tss")
+	r.ModuleLint("module-lint", "tss", 20)
+
 	return propMeta{
 		Decided: []string{
 			"R1 DE and DEQueue stores written only by SetDE/DeleteDE/SetDEQueue; DeleteDE<-{DequeueDE,ResetDE}; DequeueDE<-DequeueDEs<-AssignMembersForSigning<-InitiateNewSigningRound",
@@ -104,6 +107,7 @@ func c05(r *Report) propMeta {
 			"R8 tss InitGenesis rebuilds each member's queue from GenesisState.DEs in list order: no unstable sort (or any other lint hit) in the import path (seed C05-6 sorted the flat list with sort.Slice, which permutes one member's pairs for lists longer than 12)",
 			"R9 the (event type, attribute key) pairs the cylinder DE and signing workers read (request_signature.signing_id, pub_d / pub_e of consumed and deleted DEs) are emitted by x/tss: the daemon replaces exactly the nonces the chain consumed",
 			"R10 ExportGenesis exports exactly the queued nonces (GetDEsGenesis: Head..Tail of every queue) and reads no signing state: a nonce pair that was already assigned to an attempt is never put back into a queue by export/import (seed C05-7)",
+			"lint: the determinism lint (incl. writes to memory held by long-lived objects) over everything reachable from the handlers and blockers of x/tss",
 		},
 		Undecided: []string{"that the daemon never re-registers the same (D,E) pair (randomness)", "FIFO order as a history property beyond R2's head arithmetic"},
 		Assume:    []string{"CacheContext isolates writes until writeFn is called", "msg handlers are atomic (baseapp runTx)", "VTA resolves the bandtss/tss keeper interfaces and callback router"},
